@@ -4494,6 +4494,8 @@ class Wallet(object):
         if isinstance(to_address, str):
             to_list = [(to_address, total_amount - fee)]
         else:
+            if len([o for o in to_address if o[1] == 0]) > 1:
+                raise WalletError("Only one output can receive the rest of the swept amount (amount value = 0)")
             to_list = []
             for o in to_address:
                 if o[1] == 0:
